@@ -35,11 +35,16 @@ class State:
         s = State()
         for k in set(self.v) | set(o.v):
             a, b = self.v.get(k), o.v.get(k)
-            s.v[k] = a.join(b) if a is not None and b is not None else TOP()
-        for k in set(self.lo) & set(o.lo):
-            s.lo[k] = self.lo[k] & o.lo[k]
-        for k in set(self.hi) & set(o.hi):
-            s.hi[k] = self.hi[k] & o.hi[k]
+            if k.startswith("@") and (a is None or b is None):
+                s.v[k] = a if a is not None else b   # tracking variable: absent = nothing written yet on that path
+            else:
+                s.v[k] = a.join(b) if a is not None and b is not None else TOP()
+        for d_self, d_o, d_s in ((self.lo, o.lo, s.lo), (self.hi, o.hi, s.hi)):
+            for k in set(d_self) | set(d_o):
+                if k in d_self and k in d_o:
+                    d_s[k] = d_self[k] & d_o[k]
+                elif k.startswith("@") and (k not in self.v or k not in o.v):
+                    d_s[k] = d_self.get(k) or d_o.get(k)
         for k in set(self.flags) | set(o.flags):
             a, b = self.flags.get(k, "?"), o.flags.get(k, "?")
             s.flags[k] = a if a == b else "?"
@@ -66,7 +71,10 @@ def lname(e) -> Optional[str]:
 
 class Exec:
     def __init__(self, on_call: Optional[Callable] = None, invariants: Optional[Dict[str, Iv]] = None, partition: Optional[Set[str]] = None,
-                 on_stmt: Optional[Callable] = None, pure_calls: Optional[Dict[str, Iv]] = None, on_assign: Optional[Callable] = None):
+                 on_stmt: Optional[Callable] = None, pure_calls: Optional[Dict[str, Iv]] = None, on_assign: Optional[Callable] = None,
+                 leq: Optional[Set[Tuple[str, str]]] = None, override: Optional[Callable] = None):
+        self.leq = leq or set()          # (a, b): variable a <= variable b is an invariant of the program
+        self.override = override         # (name, expr, state) -> Iv or None : documented special transfer
         self.on_call = on_call
         self.on_assign = on_assign
         self.inv = invariants or {}
@@ -272,6 +280,12 @@ class Exec:
             ln, rn = lname(l), lname(r)
             a, b = self.ev(l, st), self.ev(r, st)
             st = st
+            if op == "!=":
+                for nm, x, y in ((ln, a, b), (rn, b, a)):
+                    if nm and y.lo == y.hi and not y.lo_s:
+                        x2 = Iv(x.lo, x.hi, x.lo_s or x.lo == y.lo, x.hi_s or x.hi == y.lo)
+                        st.v[nm] = x2
+                return st
             if ln:
                 st.v[ln] = a.meet(self._bound(op, b))
                 if rn:
@@ -320,6 +334,10 @@ class Exec:
     # -- statements --------------------------------------------------------------------------
     def assign(self, name, e, st: State):
         iv = self.ev(e, st)
+        if self.override:
+            o = self.override(name, e, st)
+            if o is not None:
+                iv = o
         if self.on_assign:
             self.on_assign(name, e, iv, st)
         st.v[name] = iv
@@ -332,8 +350,8 @@ class Exec:
                 if name in d[k]:
                     d[k] = d[k] - {name}
         if src:
-            st.lo[name] = st.lo.get(src, frozenset()) | {src}
-            st.hi[name] = st.hi.get(src, frozenset()) | {src}
+            st.lo[name] = st.lo.get(src, frozenset()) | {src} | {a for (a, b) in self.leq if b == src}
+            st.hi[name] = st.hi.get(src, frozenset()) | {src} | {b for (a, b) in self.leq if a == src}
         if e is not None and e[0] == "lit" and isinstance(e[1], bool):
             st.flags[name] = e[1]
         elif name in st.flags:
